@@ -1,3 +1,4 @@
+from vf.runner import Ob
 """Shared text for the property modules."""
 TRUSTED = ["CPython 3.12.1 (re, int(), round, timedelta, str.splitlines, enum, dataclasses, functools)",
            "IEEE-754 hardware arithmetic", "CrossHair 0.0.110 opcode models", "z3 5.1.0", "cvc5 1.0.3",
@@ -12,3 +13,11 @@ E1 = "E1: timedelta(seconds=x), 0<=x<10^6+1, is an integer number of us within 1
 E2 = "E2: round(x, 3) is the binary64 nearest to the half-even 3-decimal rounding of exact x"
 E3 = "E3: IEEE-754 binary64 round-to-nearest-even for + - * / and exact int->float conversion below 2^53"
 CH_TECH = "CrossHair symbolic execution of the real functions (z3), path-exhaustive within stated bounds, reachability twins, concrete replay"
+
+
+def _ned(prefix, tier, funcs, quick=("0,1", "6,1", "1,5", "7,6"), thorough=("0,1", "6,1", "1,5", "7,6", "2,6", "5,3", "7,5", "3,4", "4,7")):
+    """The NoteEvent.from_parsed_data harness, one partition per pair of concrete line indices."""
+    return [Ob(f"{prefix}[{ix}]", "CH", "harness.h_instrument", "note_event_dataflow", 900, {"VF_IDX2": ix}, funcs=funcs,
+               bounds="two lines with these indices at one tick; symbolic lengths, tick, gap, resolution, tempo boundary, hint, one phrase; "
+                      "times, lanes, sustain, HOPO rule, star power and returned cursors against the property's definitions")
+            for ix in (quick if tier == "quick" else thorough)]
